@@ -24,6 +24,20 @@ elif sid % 2 == 1:
     system, _ = systems.random_loop_system(rng, size=2 + (sid // 2) % 2, name=f'h{sid}', extra=True)
 else:
     system, _ = systems.random_chain_system(rng, ncomp=2 + sid % 3, with_alpha=False, name=f'h{sid}')
+if sid % 8 == 5:
+    # a two-member feedback loop inside a larger system (the loop holds fewer than half of the components): the members are iterated, and
+    # their coupling variables stacked, in listing order whatever the size of the system around them
+    from amisc import Component, Variable
+    system, _ = systems.random_loop_system(random.Random(sid), size=2, name=f'h{sid}', extra=True)
+    t1 = Variable('t1', domain=(-200.0, 200.0)); t2 = Variable('t2', domain=(-500.0, 500.0))
+
+    def tail1(inputs):
+        return {'t1': 2.0 * np.asarray(inputs['z'], dtype=float) - 1.0}
+
+    def tail2(inputs):
+        return {'t2': 0.5 * np.asarray(inputs['t1'], dtype=float) + 3.0}
+    system.insert_components([Component(tail1, [system.outputs()['z']], [t1], name='tail1', vectorized=True, data_fidelity=(1,)),
+                              Component(tail2, [t1], [t2], name='tail2', vectorized=True, data_fidelity=(1,))])
 if sid % 8 == 0 and len(system.components) >= 3:
     # the same system assembled in two calls: the components inserted later keep the order in which they were given
     from amisc import System
